@@ -4,6 +4,8 @@ SPEC = {
         {"comp": "cc_newreno", "module": "QV.Model.NewReno", "quick": 600, "thorough": 20000},
         {"comp": "cc_cubic", "module": "QV.Model.Cubic", "quick": 600, "thorough": 20000},
         {"comp": "cc_bbr", "module": "QV.Model.Bbr", "quick": 480, "thorough": 12000},
+        {"comp": "sent_packets", "module": "QV.Model.SentPackets", "quick": 800, "thorough": 30000},
+        {"comp": "inflight", "module": "QV.Model.InFlight", "quick": 800, "thorough": 30000},
     ],
     "assumptions": [
         "float arithmetic of the controllers is not modelled: every float-derived quantity is an oracle value; the theorems quantify over all oracle values, the correspondence reads them back from the implementation (relational tie for Cubic and BBR; exact IEEE f32 result for NewReno's default factor 0.5)",
